@@ -208,7 +208,7 @@ func nextOp(rng *rand.Rand, m *rmodel, o histOpts, recent []int) rop {
 	case x < 97 || !o.caches:
 		return rop{Kind: 'Z', N: rng.Intn(2000)}
 	default:
-		return rop{Kind: 'C', Aux: rng.Intn(7), N: 1 + rng.Intn(6)}
+		return rop{Kind: 'C', Aux: rng.Intn(8), N: 1 + rng.Intn(6)}
 	}
 }
 
